@@ -255,6 +255,35 @@ func TestOctreeLosesNothing(t *testing.T) {
 		}
 		scaled := &lat.Recorder3{S: lat.Scaled3{S: s, K: math.Ldexp(1, -k)}}
 		tsc := render.ToTriangles(scaled, render.NewMarchingCubesOctree(cells))
+		// the pair of renders compared below shares the code that turns ONE finest cube into triangles. What evaluating every
+		// finest-level cell emits is a surface without a boundary inside the lattice (neighbouring cells
+		// interpolate their shared edges identically): a directed edge without its reverse may only lie in
+		// the outer faces of the sampled cube, where the surface leaves the lattice. A cell whose triangles
+		// were dropped, filtered or altered leaves such an edge in the interior.
+		{
+			ax := lat.AxesOf3(scaled.Pts, 1e-9*res)
+			lo := v3.Vec{X: ax.X[0], Y: ax.Y[0], Z: ax.Z[0]}
+			hi := v3.Vec{X: ax.X[len(ax.X)-1], Y: ax.Y[len(ax.Y)-1], Z: ax.Z[len(ax.Z)-1]}
+			e := 1e-6 * res
+			onFace := func(p v3.Vec) bool {
+				return p.X <= lo.X+e || p.Y <= lo.Y+e || p.Z <= lo.Z+e || p.X >= hi.X-e || p.Y >= hi.Y-e || p.Z >= hi.Z-e
+			}
+			r := mesh.Analyze3(tb, 1e-6*res)
+			inner := 0
+			var first [2]v3.Vec
+			for _, oe := range r.Open {
+				if !(onFace(oe[0]) && onFace(oe[1])) {
+					if inner == 0 {
+						first = oe
+					}
+					inner++
+				}
+			}
+			rec.Add("octree:open-edges-in-the-outer-faces", int64(len(r.Open)-inner))
+			if inner > 0 {
+				rec.Violation(t, "MarchingCubesOctree:open-edge-inside-the-lattice", "%d cells, scene [%s] %s: %d directed edges inside the sampled cube have no reverse edge, e.g. %v -> %v (%d triangles, cell %v): the triangles of some finest cube are missing or altered", cells, kind, desc, inner, first[0], first[1], len(tb), res)
+			}
+		}
 		// the scaled run must really be unpruned: every sampled |g| below the finest half diagonal
 		for _, v := range scaled.Val {
 			if !(math.Abs(v) < hdiagMin) {
@@ -479,6 +508,27 @@ func TestQuadtreeLosesNothing(t *testing.T) {
 		}
 		scaled := &lat.Recorder2{S: lat.Scaled2{S: s, K: math.Ldexp(1, -k)}}
 		lsc := collect2(scaled, render.NewMarchingSquaresQuadtree(cells))
+		// (as in 3D) the segments of all finest squares join up inside the lattice: a point where the contour
+		// ends (odd degree; the direction of marching-squares segments is not uniform) may only lie on the
+		// outer edges of the sampled square
+		{
+			ax := lat.AxesOf2(scaled.Pts, 1e-9*res)
+			lo, hi := v2.Vec{X: ax.X[0], Y: ax.Y[0]}, v2.Vec{X: ax.X[len(ax.X)-1], Y: ax.Y[len(ax.Y)-1]}
+			e := 1e-6 * res
+			inner := 0
+			var first v2.Vec
+			for _, p := range mesh.Analyze2(lb, 1e-6*res).Odd {
+				if !(p.X <= lo.X+e || p.Y <= lo.Y+e || p.X >= hi.X-e || p.Y >= hi.Y-e) {
+					if inner == 0 {
+						first = p
+					}
+					inner++
+				}
+			}
+			if inner > 0 {
+				rec.Violation(t, "MarchingSquaresQuadtree:contour-ends-inside-the-lattice", "%d cells, scene [%s] %s: %d points inside the sampled square where the contour ends, e.g. %v (%d segments, cell %v): the segments of some finest square are missing or altered", cells, kind, desc, inner, first, len(lb), res)
+			}
+		}
 		for _, v := range scaled.Val {
 			if !(math.Abs(v) < hdiagMin) {
 				rec.Count("inconclusive:scaled-run-not-below-half-diagonal", 1)
